@@ -90,9 +90,14 @@ func (c *upstreamController) syncUpstreamCluster(obj interface{}) (syncqueue.Res
 		return syncqueue.Result{}, nil
 	}
 
-	_, err := c.lister.Get(cluster.Name)
+	latest, err := c.lister.Get(cluster.Name)
 	if errors.IsNotFound(err) {
 		c.clusters.Delete(cluster.Name)
+	} else if err == nil {
+		// always hand the current object to the handlers: the queued one may be a
+		// superseded version that was requeued after a failure and would
+		// otherwise overwrite a newer version that has been applied meanwhile
+		cluster = latest
 	}
 
 	for _, handler := range c.handlers {
